@@ -31,6 +31,7 @@ def run(ctx):
     pathsplit(ctx, "R9")
     totality_table(ctx, "R10")
     empty_segment_table(ctx, "R11")
+    telegram_model(ctx, "R12")
 
 
 # strings the standard parser refuses (unbalanced bracket in the authority) or that have no authority at all, and strings
@@ -560,6 +561,84 @@ def facebook_model(ctx, rule):
                "parse_facebook_url(%r) is %r, its canonical url %r re-parses to %r" % (u, r, canon, r2), site, witness=u, trivial=True)
     ctx.ob(rule, "facebook/cells", True, "", site, sample="%d urls, %d records round-tripped" % (n, nrec))
     ctx.require_instances(rule, nrec, 50, "facebook records")
+
+
+TELEGRAM_VOCAB = ["s", "joinchat", "chan", "1234567"]
+
+
+def _telegram_reference(segs):
+    """documented routes of t.me: [s/]joinchat/<id> (and joinchat/<x>/<id> on the regular site) is a group, [s/]<name>/<digits> a message,
+    [s/]<name> a channel; 's' as first segment is the public-preview marker"""
+    if not segs:
+        return None
+    public = segs[0] == "s"
+    r = segs[1:] if public else segs
+    if not r:
+        return None
+    if r[0] == "joinchat":
+        if len(r) == 2:
+            return ("TelegramGroup", r[1])
+        if len(r) == 3 and not public:
+            return ("TelegramGroup", r[2])
+        return None
+    if len(r) == 2 and r[1].isdigit():
+        return ("TelegramMessage", r[0], r[1])
+    if len(r) == 1:
+        return ("TelegramChannel", r[0])
+    return None
+
+
+def telegram_model(ctx, rule):
+    ctx.rule(rule, "model table (Telegram): parse_telegram_url, interpreted on {t.me, telegram.me} x every path of 0-4 segments over {s, joinchat, a name, a number} (with and without a trailing slash on the short ones), gives the record of the documented routes (group / message / channel, 's' being the public-preview marker and nothing else), and the public version built by convert_telegram_url_to_public parses to the same record as the url it was built from")
+    from ..microeval import run_function, Raised
+    repo = ctx.repo
+    tm = repo.mod("telegram")
+    fparse = tm.func("parse_telegram_url")
+    fconv = tm.func("convert_telegram_url_to_public")
+    ctx.fn(fparse.qualname)
+    ctx.fn(fconv.qualname)
+    site = tm.site(fparse.node)
+    cells = []
+    for L in range(0, 5):
+        for segs in itertools.product(TELEGRAM_VOCAB, repeat=L):
+            cells.append(("https://t.me", list(segs), ""))
+            if L <= 2:
+                cells.append(("telegram.me", list(segs), "/"))
+    n = 0
+
+    def key(r):
+        if r is None:
+            return None
+        return (type(r).__name__,) + tuple(r)
+    for host, segs, tail in cells:
+        u = host + "/" + "/".join(segs) + (tail if segs else "")
+        want = _telegram_reference(segs)
+        try:
+            got = key(run_function(repo, fparse, [u]))
+        except Raised as e:
+            got = "raises " + e.name
+        except Unknown as e:
+            ctx.undecided(rule, "parse_telegram_url(%r): %s" % (u, e))
+            return
+        n += 1
+        ctx.ob(rule, "telegram/parse/%s" % u, got == want, "parse_telegram_url(%r) gives %r, the documented routes give %r" % (u, got, want), site, witness=u, trivial=True,
+               sample="%r -> %r" % (u, got) if segs == ["chan", "1234567"] and not tail else None)
+        if want is None or segs[0] == "s":
+            continue
+        try:
+            pub = run_function(repo, fconv, [u])
+            got2 = key(run_function(repo, fparse, [pub]))
+        except Raised as e:
+            pub, got2 = None, "raises " + e.name
+        except Unknown as e:
+            ctx.undecided(rule, "convert_telegram_url_to_public(%r): %s" % (u, e))
+            return
+        # the regular-site-only route joinchat/<x>/<id> has no public twin with three segments: the public parser refuses it
+        if segs[0] == "joinchat" and len(segs) == 3:
+            continue
+        ctx.ob(rule, "telegram/public-twin/%s" % u, got2 == want, "parse_telegram_url(%r) is %r but its public version %r parses to %r" % (u, want, pub, got2), tm.site(fconv.node), witness=u, trivial=True)
+    ctx.ob(rule, "telegram/cells", True, "", site, sample="%d urls" % n)
+    ctx.require_instances(rule, n, 300, "telegram urls")
 
 
 GOOGLE_CELLS = [
